@@ -13,7 +13,7 @@ LEVEL = 'exploration'
 RULE = ('Pairs of unit quaternions p,q from a mixture (normalised random 4-vectors; axis-angle with the angle '
         'log-uniform towards 0 and towards pi; pure/real/+-identity specials; near-antipodal pairs; one or two '
         'denormal components) and vectors v with |v| in 1e-150..1e150 or exactly 0; every case is pushed through '
-        'every public q->R route (Quaternion.to_DCM, QuaternionArray.to_DCM row k of N, DCM(q=), DCM.from_quaternion '
+        'every public q->R route (Quaternion.to_DCM, QuaternionArray.to_DCM row k of N, both also for the scalar-last storage order="S", DCM(q=), DCM.from_quaternion '
         'single+batch, DCM.from_q, orientation.q2R v1/v2 single+batch), every product route (*, @, .product, q_prod) '
         'and every rotate route (Quaternion.rotate 1-D and 3xN, R@v, q v q*, q_rot). Oracle: own q->R formula, '
         'orthogonality/determinant, homomorphism, R(-q)=R(q) bit-exact, R(q*)=R(q)^T, rotate routes agree. '
@@ -56,6 +56,9 @@ def q2R_routes(q, case):
     return [
         ('Quaternion.to_DCM', lambda: np.asarray(Quaternion(np.array(q)).to_DCM())),
         ('QuaternionArray.to_DCM', lambda: np.asarray(QuaternionArray(batch()).to_DCM()[idx])),
+        # the scalar-last twins: the same quaternions stored as (x, y, z, w) with order='S'
+        ('Quaternion(order=S).to_DCM', lambda: np.asarray(Quaternion(np.roll(np.array(q, dtype=float), -1), order='S').to_DCM())),
+        ('QuaternionArray(order=S).to_DCM', lambda: np.asarray(QuaternionArray(np.roll(batch(), -1, axis=1), order='S').to_DCM()[idx])),
         ('DCM(q=)', lambda: np.asarray(DCM(q=np.array(q)))),
         ('DCM.from_quaternion', lambda: np.asarray(DCM.from_quaternion(np.array(q)))),
         ('DCM.from_quaternion[batch]', lambda: np.asarray(DCM.from_quaternion(batch())[idx])),
